@@ -85,7 +85,7 @@ fn record_stats(ctx: &mut Ctx, st: &crate::sched::ExploreStats, bound: Option<u3
     }
     match bound {
         Some(b) => ctx.rep.set_max(&format!("sched.{label}.preemption_bound_max"), b as u64),
-        None => ctx.rep.count(&format!("sched.{label}.unbounded_completed"), if st.capped { 0 } else { 1 }),
+        None => ctx.rep.set_max(&format!("sched.{label}.unbounded_completed_max"), if st.capped { 0 } else { 1 }),
     }
     ctx.rep.count("sched.pruned_by_bound", st.pruned_by_bound);
 }
@@ -166,26 +166,89 @@ fn oligo_reference(case: &OligoCase) -> (Vec<u8>, usize, usize) {
     (out, header_len, row_len)
 }
 
+/// C05 oracle: does the output hold, for every i, the row of record i (header and delimiter as requested)?
+/// Values are compared with the model within the 6-decimal tolerance, so a different but correct way of
+/// computing or rounding a frequency is not an alarm; rows of different records differ by far more than that.
+fn oligo_rows_in_order(case: &OligoCase, bytes: &[u8]) -> Result<(), (String, String)> {
+    let index = model::canon_index(case.k);
+    let text = match std::str::from_utf8(bytes) {
+        Ok(t) => t,
+        Err(_) => return Err(("row-content".into(), "output is not text (NUL or binary bytes)".into())),
+    };
+    let mut lines: Vec<&str> = text.split('\n').collect();
+    if lines.last() == Some(&"") {
+        lines.pop();
+    } else if !text.is_empty() {
+        return Err(("row-content".into(), "output does not end with a line feed".into()));
+    }
+    if case.header {
+        let names: Vec<String> = index.iter().map(|&c| String::from_utf8(model::text_of(c, case.k)).unwrap()).collect();
+        if lines.is_empty() || lines[0] != names.join(&case.delim) {
+            return Err(("header-line".into(), format!("first line {:?} is not the header", lines.first().map(|l| &l[..l.len().min(60)]))));
+        }
+        lines.remove(0);
+    }
+    if lines.len() != case.records.len() {
+        return Err(("output-size".into(), format!("{} rows for {} records", lines.len(), case.records.len())));
+    }
+    let parse = |line: &str| -> Option<Vec<f64>> {
+        if case.delim.is_empty() {
+            if line.len() != index.len() * 8 {
+                return None;
+            }
+            return (0..index.len()).map(|i| line[i * 8..i * 8 + 8].parse::<f64>().ok()).collect();
+        }
+        let toks: Vec<&str> = line.split(case.delim.as_str()).collect();
+        if toks.len() != index.len() {
+            return None;
+        }
+        toks.iter().map(|t| t.parse::<f64>().ok()).collect()
+    };
+    let matches = |vals: &[f64], rec: &[u8]| -> bool {
+        let (cnt, tot) = model::oligo(rec, case.k, &index);
+        vals.iter().zip(cnt.iter()).all(|(v, &c)| model::close_to_ratio(*v, c, tot))
+    };
+    for (i, line) in lines.iter().enumerate() {
+        let vals = match parse(line) {
+            Some(v) => v,
+            None => return Err(("row-content".into(), format!("row {i} {:?} is not {} numbers", &line[..line.len().min(60)], index.len()))),
+        };
+        if !matches(&vals, &case.records[i]) {
+            let other = (0..case.records.len()).find(|&j| j != i && matches(&vals, &case.records[j]));
+            return Err(match other {
+                Some(j) => ("rows-out-of-order".into(), format!("row {i} is the row of record {j}, not of record {i}")),
+                None => ("row-content".into(), format!("row {i} {:?} is not the row of record {i}", &line[..line.len().min(60)])),
+            });
+        }
+    }
+    Ok(())
+}
+
 /// C14 oracle on one execution: the write log and the resulting file
 fn c14_check_writes(case: &OligoCase, res: &ExecResult, bytes: &[u8]) -> Result<(), (String, String)> {
     if let Some(v) = &res.write_veto {
         return Err(("write-out-of-range".into(), v.clone()));
     }
     let index_len = model::canon_index(case.k).len();
-    let row_len = index_len * 8 + (index_len - 1) * case.delim.len() + 1;
     let header_len = if case.header { index_len * case.k + (index_len - 1) * case.delim.len() + 1 } else { 0 };
-    let expect_size = header_len + case.records.len() * row_len;
     let mut w = res.writes.clone();
-    for &(pos, len, cap) in &w {
-        if cap != expect_size {
-            return Err(("mapping-size".into(), format!("mapping of {cap} bytes, expected header {header_len} + {} x {row_len} = {expect_size}", case.records.len())));
+    if w.is_empty() {
+        if !case.records.is_empty() || case.header {
+            return Err(("bytes-never-written".into(), "no write was issued to the mapped file".into()));
+        }
+        return if bytes.is_empty() { Ok(()) } else { Err(("file-size".into(), format!("{} bytes in the file but nothing was written", bytes.len()))) };
+    }
+    let cap = w[0].2;
+    for &(pos, len, c) in &w {
+        if c != cap {
+            return Err(("mapping-size".into(), format!("capacity changed between writes: {c} vs {cap}")));
         }
         if pos + len > cap {
             return Err(("write-out-of-range".into(), format!("write [{pos},{}) beyond the mapping of {cap} bytes", pos + len)));
         }
     }
-    if bytes.len() != expect_size {
-        return Err(("file-size".into(), format!("output file has {} bytes, expected header {header_len} + {} x {row_len} = {expect_size}", bytes.len(), case.records.len())));
+    if bytes.len() != cap {
+        return Err(("file-size".into(), format!("output file has {} bytes but the mapping has {cap}", bytes.len())));
     }
     w.sort();
     let mut end = 0usize;
@@ -198,8 +261,27 @@ fn c14_check_writes(case: &OligoCase, res: &ExecResult, bytes: &[u8]) -> Result<
         }
         end = pos + len;
     }
-    if end != expect_size {
-        return Err(("bytes-never-written".into(), format!("bytes [{end},{expect_size}) are never written; log {:?}", w)));
+    if end != cap {
+        return Err(("bytes-never-written".into(), format!("bytes [{end},{cap}) of the mapping are never written; log {:?}", w)));
+    }
+    // file size = header length + records x row length: one header write (if any) and one equal-sized write per record
+    let mut rows: Vec<(usize, usize, usize)> = w.clone();
+    if case.header {
+        let h = rows.remove(0);
+        if h.0 != 0 || h.1 != header_len {
+            return Err(("mapping-size".into(), format!("first write is [{},{}) but the header line has {header_len} bytes", h.0, h.0 + h.1)));
+        }
+    }
+    if rows.len() != case.records.len() {
+        return Err(("mapping-size".into(), format!("{} row writes for {} records; log {:?}", rows.len(), case.records.len(), w)));
+    }
+    if let Some(first) = rows.first() {
+        if rows.iter().any(|r| r.1 != first.1) {
+            return Err(("mapping-size".into(), format!("row writes of different lengths; log {:?}", w)));
+        }
+        if cap != header_len + case.records.len() * first.1 {
+            return Err(("mapping-size".into(), format!("mapping of {cap} bytes, expected header {header_len} + {} x {} = {}", case.records.len(), first.1, header_len + case.records.len() * first.1)));
+        }
     }
     if bytes.contains(&0) {
         return Err(("nul-bytes".into(), "the output file contains NUL bytes".into()));
@@ -253,8 +335,8 @@ pub fn oligo_explore(ctx: &mut Ctx, case: &OligoCase, bound: Option<u32>, which:
                 bad = Some(("panic".into(), format!("panicked: {p}")));
             } else if let Ok(Err(e)) = &r {
                 bad = Some(("error".into(), e.clone()));
-            } else if bytes != reference {
-                bad = Some(("rows-out-of-order".into(), format!("output {:?} differs from the rows in input order {:?}", String::from_utf8_lossy(&bytes), String::from_utf8_lossy(&reference))));
+            } else if let Err((k, m)) = oligo_rows_in_order(case, &bytes) {
+                bad = Some((k, format!("{m}; output {:?}, rows in input order {:?}", String::from_utf8_lossy(&bytes), String::from_utf8_lossy(&reference))));
             }
         } else if let Err((k, m)) = c14_check_writes(case, &res, &bytes) {
             bad = Some((k, m));
@@ -287,10 +369,11 @@ fn oligo_cases(ctx: &Ctx) -> Vec<(OligoCase, Option<u32>, String)> {
         (2usize, 2usize, 1usize, false, None),
         (2, 3, 1, false, None),
         (2, 3, 2, true, None),
-        (2, 4, 1, true, if ctx.thorough() { None } else { Some(3) }),
-        (3, 2, 1, false, Some(ctx.pick(2, 3))),
-        (3, 3, 1, true, Some(ctx.pick(2, 3))),
-        (3, 4, 2, false, Some(ctx.pick(2, 3))),
+        (2, 4, 1, true, None),
+        (3, 2, 1, false, Some(ctx.pick(4, 7))),
+        (3, 3, 1, true, Some(ctx.pick(4, 6))),
+        (3, 4, 2, false, Some(ctx.pick(3, 5))),
+        (4, 3, 1, false, Some(ctx.pick(2, 4))),
     ] {
         v.push((
             OligoCase {
@@ -585,11 +668,16 @@ pub fn c07_sched(ctx: &mut Ctx) {
     let aca = b"ACA".to_vec();
     let cac = b"CAC".to_vec();
     // base limit per chunk = (1e9 * mem / 8) bases: 4e-9 -> 0, 3.2e-8 -> 4 (one 3-base record does not exceed it, two do)
+    let ac = b"AC".to_vec();
+    let gt = b"GT".to_vec();
     let cases: Vec<(CtrCase, Option<u32>, &str)> = vec![
-        (CtrCase { threads: 2, k: 2, mem: 4e-9, records: vec![aca.clone(), aca.clone()], delete: false }, Some(ctx.pick(2, 4)), "N2.limit0"),
-        (CtrCase { threads: 2, k: 2, mem: 6.0, records: vec![aca.clone(), cac.clone()], delete: true }, Some(ctx.pick(2, 3)), "N2.unlimited"),
-        (CtrCase { threads: 2, k: 1, mem: 3.2e-8, records: vec![aca.clone(), cac.clone(), aca.clone()], delete: true }, Some(ctx.pick(1, 2)), "N2.limit4"),
-        (CtrCase { threads: 3, k: 2, mem: 4e-9, records: vec![aca.clone(), aca.clone(), cac.clone()], delete: false }, Some(ctx.pick(1, 2)), "N3.limit0"),
+        (CtrCase { threads: 2, k: 2, mem: 4e-9, records: vec![aca.clone(), aca.clone()], delete: false }, Some(ctx.pick(3, 5)), "N2.limit0"),
+        (CtrCase { threads: 2, k: 2, mem: 6.0, records: vec![aca.clone(), cac.clone()], delete: true }, Some(ctx.pick(3, 5)), "N2.unlimited"),
+        // the same canonical k-mer met on opposite strands by two workers (AC / GT)
+        (CtrCase { threads: 2, k: 2, mem: 6.0, records: vec![ac.clone(), gt.clone(), ac.clone()], delete: true }, Some(ctx.pick(3, 6)), "N2.strands"),
+        (CtrCase { threads: 2, k: 1, mem: 3.2e-8, records: vec![aca.clone(), cac.clone(), aca.clone()], delete: true }, Some(ctx.pick(2, 3)), "N2.limit4"),
+        (CtrCase { threads: 3, k: 2, mem: 4e-9, records: vec![aca.clone(), aca.clone(), cac.clone()], delete: false }, Some(ctx.pick(2, 3)), "N3.limit0"),
+        (CtrCase { threads: 3, k: 2, mem: 6.0, records: vec![ac.clone(), gt.clone(), ac.clone()], delete: true }, Some(ctx.pick(2, 3)), "N3.strands"),
     ];
     for (case, bound, label) in cases {
         ctr_explore(ctx, &case, bound, label);
@@ -617,8 +705,8 @@ pub fn replay(ctx: &mut Ctx, args: &[String]) {
                     Some(("deadlock", "deadlock".to_string()))
                 } else if res.panicked.is_some() || r.is_err() {
                     Some(("panic", format!("{:?} {:?}", res.panicked, r.as_ref().err())))
-                } else if bytes != reference {
-                    Some(("rows-out-of-order", format!("output {:?} differs from {:?}", String::from_utf8_lossy(&bytes), String::from_utf8_lossy(&reference))))
+                } else if let Err((_k, m)) = oligo_rows_in_order(&case, &bytes) {
+                    Some(("rows-out-of-order", format!("{m}; output {:?}, rows in input order {:?}", String::from_utf8_lossy(&bytes), String::from_utf8_lossy(&reference))))
                 } else {
                     None
                 };
@@ -854,11 +942,14 @@ pub fn c10_sched(ctx: &mut Ctx) {
     let r1 = b"ACAC".to_vec();
     let r2 = b"CACA".to_vec();
     let r3 = b"ACNAC".to_vec();
+    let r4 = b"GTGT".to_vec(); // the reverse complement of ACAC: same canonical minimisers on the other strand
     for (threads, recs, w, bound, label) in [
         (2usize, vec![r1.clone(), r1.clone()], 0usize, None, "N2R2w0"),
-        (2, vec![r1.clone(), r2.clone()], 3, if ctx.thorough() { None } else { Some(3) }, "N2R2w3"),
-        (2, vec![r1.clone(), r2.clone(), r3.clone()], 3, Some(ctx.pick(2, 3)), "N2R3w3"),
-        (3, vec![r1.clone(), r2.clone(), r1.clone()], 0, Some(ctx.pick(2, 3)), "N3R3w0"),
+        (2, vec![r1.clone(), r2.clone()], 3, if ctx.thorough() { None } else { Some(4) }, "N2R2w3"),
+        (2, vec![r1.clone(), r4.clone()], 3, if ctx.thorough() { None } else { Some(4) }, "N2R2w3rc"),
+        (2, vec![r1.clone(), r2.clone(), r3.clone()], 3, Some(ctx.pick(4, 6)), "N2R3w3"),
+        (3, vec![r1.clone(), r2.clone(), r1.clone()], 0, Some(ctx.pick(3, 5)), "N3R3w0"),
+        (3, vec![r1.clone(), r4.clone(), r2.clone()], 3, Some(ctx.pick(3, 4)), "N3R3w3rc"),
     ] {
         let case = MinCase {
             threads,
@@ -918,8 +1009,8 @@ pub fn c10_configs(ctx: &mut Ctx) {
         }
     }
     // lists of short records
-    let s3 = crate::enumr::strings(b"ACN", 0, 3);
-    let s2 = crate::enumr::strings(b"ACN", 0, 2);
+    let s3 = crate::enumr::strings(b"ATN", 0, 3);
+    let s2 = crate::enumr::strings(b"ACGN", 0, 2);
     let mut lists: Vec<Vec<Vec<u8>>> = vec![vec![]];
     for a in &s3 {
         for b in &s3 {
@@ -944,7 +1035,7 @@ pub fn c10_configs(ctx: &mut Ctx) {
     }
     if ctx.shard.is_first() {
         ctx.rep.sample(format!("free-running: {} records (every string over ACGTN up to length {}) as one file, m=2, w=0, 16 threads, both outputs", big.len(), ctx.pick(5, 6)));
-        ctx.rep.notes.push("C10 configurations: all short strings as one file x m 1..=3 x w in (0, m+1, m+2) x threads (1,2,4,16); every list of 2 (thorough 3) records over {A,C,N}^(<=3) x 5 settings; both outputs compared with the model as multisets".to_string());
+        ctx.rep.notes.push("C10 configurations: all short strings as one file x m 1..=3 x w in (0, m+1, m+2) x threads (1,2,4,16); every pair of records over {A,T,N}^(<=3) (thorough: also triples over {A,C,G,N}^(<=2)) x 5 settings; both outputs compared with the model as multisets".to_string());
     }
 }
 
@@ -1049,28 +1140,8 @@ fn c05_config(ctx: &mut Ctx, set: &str, records: &[Vec<u8>], k: usize, container
     }
     let bytes = std::fs::read(&outp).unwrap_or_default();
     let case = OligoCase { threads, k, header, delim: delim.to_string(), records: records.to_vec() };
-    let (reference, header_len, row_len) = oligo_reference(&case);
-    if bytes != reference {
-        // name the first row that is wrong
-        let mut which = String::new();
-        if bytes.len() == reference.len() && row_len > 0 {
-            for i in 0..records.len() {
-                let a = header_len + i * row_len;
-                if bytes[a..a + row_len] != reference[a..a + row_len] {
-                    // does it hold the row of some other record?
-                    let other = (0..records.len()).find(|&j| reference[header_len + j * row_len..header_len + (j + 1) * row_len] == bytes[a..a + row_len]);
-                    which = format!("row {i} differs from the row of record {i}{}", other.map(|j| format!(" (it is the row of record {j})")).unwrap_or_default());
-                    break;
-                }
-            }
-            if which.is_empty() && bytes[..header_len] != reference[..header_len] {
-                which = "header line differs".into();
-            }
-        } else {
-            which = format!("{} bytes, expected {}", bytes.len(), reference.len());
-        }
-        let key = if bytes.len() != reference.len() { "output-size" } else if which.contains("it is the row of record") { "rows-out-of-order" } else { "row-content" };
-        return viol(ctx, key, size, format!("{what}: {which}"), argv);
+    if let Err((key, which)) = oligo_rows_in_order(&case, &bytes) {
+        return viol(ctx, &key, size, format!("{what}: {which}"), argv);
     }
     ctx.rep.nontrivial += 1;
 }
